@@ -173,6 +173,29 @@ def run(tier, seed, scratch, t0):
             _merge_violations(res, rs)
         layers["tsan"] = tsan
 
+    # ---- slice for the non-default `async` feature: AsyncArchiveReader::extract_files_concurrent over a real tokio file
+    asl = {"built": False}
+    try:
+        abin = sup.build("vh-mpq", "c09_async", features="async")
+        asl["built"] = True
+    except sup.Broken as ex:
+        res.add_inconclusive("async-slice-not-built")
+        res.notes.append(str(ex)[-400:])
+        abin = None
+    if abin:
+        ra = sup.Result("C09")
+        sup.run_workers(ra, abin, [], tier, seed, scratch, nshards=4, case_timeout=300, label="async-")
+        asl.update({"cases": ra.cases, "calls": ra.counters.get("async_calls", 0), "slots_compared": ra.counters.get("async_slots_compared", 0), "verdicts": dict(ra.verdicts)})
+        res.cases += ra.cases
+        res.classes |= ra.classes
+        for k in ("async_calls", "async_slots_compared"):
+            res.add_counter(k, ra.counters.get(k, 0))
+        for k, v in ra.verdicts.items():
+            if k != "viol":
+                res.verdicts[k] = res.verdicts.get(k, 0) + v
+        _merge_violations(res, ra)
+    layers["async_feature_slice"] = asl
+
     c = res.counters
     table = _schedule_table(c)
     per_api = {k.split("|", 1)[1]: c.pop(k) for k in list(c.keys()) if k.startswith("calls|")}
@@ -203,4 +226,4 @@ def run(tier, seed, scratch, t0):
 
 
 def replay(rp, scratch):
-    return sup.generic_replay(rp, scratch, "vh-mpq")
+    return sup.generic_replay(rp, scratch, "vh-mpq", features="async" if rp["replay"].get("bin") == "c09_async" else None)
